@@ -53,7 +53,7 @@ func init() {
 			return 2 - cost
 		},
 		Deadline: map[string]time.Duration{"quick": 8 * time.Minute, "thorough": 50 * time.Minute},
-		Rule:     "programs of F-types (supported forms) compiled with their randdata and gounions outputs; math/rand is replaced by a shim whose every draw is a choice point (all values for n <= 8, {0,1,n-1} above); every sequence of random answers within the shared deviation budget is explored for every generated function; non-trivial = at least one generated function was called",
+		Rule:     "programs of F-types (supported forms) compiled with their randdata and gounions outputs; math/rand is replaced by a shim whose every draw is a choice point (all values for n <= 8, {0, n-1, n/3, n/2} above); every sequence of random answers within the shared deviation budget is explored for every generated function; on the scaffold program a table sweep also gives every draw on 9..64 values (an index into a small table such as the letters of randstring), one at a time, every value of its range; non-trivial = at least one generated function was called",
 		Assumptions: []string{
 			"a generated function drawing more than 100000 random numbers in one call does not terminate",
 			"Int31 / Float64 answer from a 3-value alphabet",
